@@ -182,3 +182,14 @@ Qed.
 (* the number part is ASCII: the oracle gives it its length *)
 Lemma number_width : forall w d, ascii_width_ok w -> w (show d) = length (show d).
 Proof. intros w d Hw. apply Hw. apply show_printable. Qed.
+
+(* `<` and `<=` in get_column choose between equal values at the boundary (the edit
+   `left + padding <= colsize` is not a change of behaviour) *)
+Lemma get_column_le_same : forall c l p,
+  (if (l + p <=? c)%nat then (c - l)%nat else p) = get_column c l p.
+Proof.
+  intros c l p. unfold get_column.
+  destruct (l + p <=? c)%nat eqn:E1; destruct (l + p <? c)%nat eqn:E2; try reflexivity.
+  - apply Nat.leb_le in E1. apply Nat.ltb_ge in E2. lia.
+  - apply Nat.leb_gt in E1. apply Nat.ltb_lt in E2. lia.
+Qed.
